@@ -20,7 +20,9 @@ CLAIMED = {
               'configured callable exactly once with exactly those lists (ghost call log). The end-to-end clause build == '
               'direct call (through the traversal) is a bounded exhaustive enumeration and is labelled so.', '§5 C01'),
     'C02': _c('pyvc: MemoizedTraversal.apply (memo hit / cycle / one invocation of the traversal function per object id, '
-              'memo pins the value, memo only grows). Bounded: invocation log and canonical form of the built graph vs an '
+              'memo pins the value, memo only grows); build.<locals>._build (children first, exactly one call_buildable per '
+              'visited Buildable node with a canonical argument store); Partial.__build__ (always a fresh functools.partial). '
+              'Bounded: invocation log and canonical form of the built graph vs an '
               'independent evaluation on every DAG shape <= 3-4 nodes, equal-but-distinct nodes, temporaries of registered '
               'node types, built objects dropped by their first consumer, two builds, chains.', '§5 C02'),
     'C03': _c('class invariant Canon (BInv) + per-operation contracts against the list/dict reference model, discharged by '
@@ -28,7 +30,10 @@ CLAIMED = {
               '__delitem__ with index keys (incl. the *args compaction loop), _set_item_by_index, ordered_arguments and the '
               'SignatureInfo kernel; slice keys (_set_item_by_slice, slice deletion) are covered by exhaustive small-scope '
               'enumeration against the reference model (bounded, labelled).', '§5 C03'),
-    'C04': _c('pyvc: the PK-by-keyword clause of transform_to_args_kwargs (overridable at call time); bounded: identity sets '
+    'C04': _c('pyvc: the PK-by-keyword clause of transform_to_args_kwargs (overridable at call time); '
+              '_InvokeArgFactoryWrapper.__call__ (per call of a built partial the t-th ArgFactory argument gets the result of '
+              'the t-th factory invocation of that call, made on that very ArgFactory; wrapped function called once); '
+              'Partial.__build__ / ArgFactory.__build__ always go through _build_partial (assumed). Bounded: identity sets '
               'across calls for every Partial/ArgFactory nesting and every (signature, store) vs a functools.partial reference.', '§5 C04'),
     'C05': _c('pyvc: _in_build and try_with_lazy_message (context managers: flag restored on every exit, the escaping exception '
               'is the original or its decorated proxy), call_buildable, MemoizedTraversal.apply on exceptional exits. Bounded '
@@ -43,14 +48,16 @@ CLAIMED = {
               '__unflatten__, __copy__ (copy.copy gives a fresh Buildable satisfying the representation invariant, same '
               'class/callable/signature, fresh argument dict with the same shared values, fresh tag sets and history lists) '
               'and 5 lemmas over these contracts: an edit (setattr/delattr/setitem) of the copy modifies nothing that '
-              'existed before, an edit of the original leaves the copy what it was. deepcopy / pickle / cast / copy_with are '
+              'existed before, an edit of the original leaves the copy what it was; casting.cast (as __copy__ with the class of '
+              'new_type); __getstate__ / __setstate__ (pickle state). deepcopy / what pickle does in between / copy_with are '
               'bounded: canonical form + identity disjointness for every pool configuration x copier x edit sequence <= 2/3.', '§5 C07'),
     'C08': _c('pyvc: _buildable_flatten, _buildable_path_elements, ordered_arguments, MemoizedTraversal.apply and the lemma '
               '"following the i-th path element of a Buildable yields (is) its i-th flattened value" (path soundness at '
               'Buildable nodes, all inputs). Bounded: path multisets / memoized visits / all-paths queries vs an independent '
               'expansion on every DAG shape, identity traversal canonical form, cycles, late registration.', '§5 C08'),
-    'C09': _c('pyvc: Deserialization._deserialize_ref / _deserialize_pyref (a python reference is imported only through '
-              'import_symbol with the instance policy). Bounded: leaf domain (ints, floats, escape-like str/bytes, enums, '
+    'C09': _c('pyvc: Deserialization._deserialize_ref / _deserialize_pyref and import_symbol itself (a python reference is '
+              'imported only after policy.allows_import said yes, a value is returned only if policy.allows_value said yes, '
+              'on every exit a module was imported only if allowed). Bounded: leaf domain (ints, floats, escape-like str/bytes, enums, '
               'sets, ...) and pool configurations through dump/load with recording policies.', '§5 C09'),
     'C10': _c('pyvc: the diff operations SetValue / ModifyValue / DeleteValue / AddTag / RemoveTag .apply (each is exactly the '
               'corresponding edit contract on Attr / Index / Key children, ValueError otherwise, nothing else changes), '
